@@ -695,6 +695,19 @@ def parser_case(draw, **kw):
         elif op == "index-coerce" and spec.get("index") and "multi" not in spec["index"] and table.get("index") \
                 and "multi" not in table["index"]:
             ixs, ixt = spec["index"], table["index"]
+            if ixs.get("dtype") == "str" and ixt["phys"] == "object" and ixt["cells"] \
+                    and all(isinstance(v, str) for v in ixt["cells"]):
+                # an object index that already "is" a string index by its dtype, with one label that is a number:
+                # coercion has to turn that label into text
+                i = draw(st.integers(0, len(ixt["cells"]) - 1))
+                num = draw(st.sampled_from([7, 12, 0, 2.5]))
+                ixt["cells"] = [num if j == i else v for j, v in enumerate(ixt["cells"])]
+                ixs["checks"] = []
+                if str(num) in ixt["cells"]:
+                    ixs["unique"] = False
+                ixs["coerce"] = True
+                opts.append(op)
+                continue
             if ixs.get("dtype") in ("int64", "float64") and not any(v is None for v in ixt["cells"]):
                 if ixs["dtype"] == "int64":
                     ixt["phys"], ixt["cells"] = "object", [str(v) for v in ixt["cells"]]
